@@ -92,11 +92,22 @@ type decodeInput struct {
 	// Prev, when set, is the datagram the reused Message held just before (worst case for stale storage: the
 	// complete message of which Bytes is a prefix)
 	Prev []byte
+	// Roomy: Bytes is a prefix of a larger array that holds more of the same message behind it; the harness hands
+	// the slice over as it is (capacity included)
+	Roomy bool
 }
 
 func (d *decodeInput) replay() map[string]interface{} {
 	if d.Prev != nil {
 		return map[string]interface{}{"hex": hex.EncodeToString(d.Bytes), "prev": hex.EncodeToString(d.Prev)}
+	}
+	if cap(d.Bytes) > len(d.Bytes) {
+		// what lies behind the input in the caller's buffer is part of the case
+		behind := d.Bytes[len(d.Bytes):cap(d.Bytes)]
+		if len(behind) > 4096 {
+			behind = behind[:4096]
+		}
+		return map[string]interface{}{"hex": hex.EncodeToString(d.Bytes), "behind": hex.EncodeToString(behind), "roomy": d.Roomy}
 	}
 	return map[string]interface{}{"hex": hex.EncodeToString(d.Bytes)}
 }
@@ -106,7 +117,7 @@ func (d *decodeInput) replay() map[string]interface{} {
 // would complete the second, so any entry point that does not cut its buffer down to the new input accepts it.
 func sweepPrefixAfterFull(c *Ctx, fn func(in *decodeInput, seq int64)) {
 	var full [][]byte
-	for _, m := range c08Msgs[:11] {
+	for _, m := range c08Msgs[:12] {
 		full = append(full, m)
 	}
 	full = append(full, c01Big)
@@ -126,6 +137,52 @@ func sweepPrefixAfterFull(c *Ctx, fn func(in *decodeInput, seq int64)) {
 				continue
 			}
 			fn(&decodeInput{Fam: "prefix-after-full", Bytes: append([]byte(nil), x[:k]...), Prev: x}, seq)
+		}
+	}
+}
+
+// sweepFullAfterPrefix: the reverse order - a reused Message is given a truncated datagram (rejected), then a complete
+// message: the rejected bytes must not count for anything (nothing is "pending").
+func sweepFullAfterPrefix(c *Ctx, fn func(in *decodeInput, seq int64)) {
+	full := append(append([][]byte{}, c08Msgs[:12]...), c01Big)
+	var seq int64
+	for xi, x := range full {
+		for _, k := range []int{1, 19, 20, 21, 24, len(x) - 4, len(x) - 1} {
+			if k <= 0 || k >= len(x) {
+				continue
+			}
+			for _, other := range []int{xi, (xi + 1) % len(full), (xi + 5) % len(full)} {
+				seq++
+				if !c.Mine(seq) {
+					continue
+				}
+				fn(&decodeInput{Fam: "full-after-prefix", Bytes: append([]byte(nil), full[other]...), Prev: append([]byte(nil), x[:k]...)}, seq)
+			}
+		}
+	}
+}
+
+// sweepPrefixInRoomySlice: a truncated datagram handed over as buf[:n] of a larger buffer whose spare capacity still
+// holds the rest of the message (a read buffer that received the complete message a moment ago): capacity is not content.
+func sweepPrefixInRoomySlice(c *Ctx, fn func(in *decodeInput, seq int64)) {
+	full := append(append([][]byte{}, c08Msgs[:12]...), c01Big)
+	var seq int64
+	for _, x := range full {
+		var cuts []int
+		if len(x) <= 120 {
+			for k := 0; k < len(x); k++ {
+				cuts = append(cuts, k)
+			}
+		} else {
+			cuts = []int{0, 19, 20, 21, 24, 100, len(x) - 8, len(x) - 4, len(x) - 3, len(x) - 1}
+		}
+		for _, k := range cuts {
+			seq++
+			if !c.Mine(seq) {
+				continue
+			}
+			buf := append([]byte(nil), x...)
+			fn(&decodeInput{Fam: "prefix-in-roomy-slice", Bytes: buf[:k], Roomy: true}, seq)
 		}
 	}
 }
